@@ -71,6 +71,9 @@ type Obligation struct {
 	cand      *candInv
 	candKey   string
 	Support   bool   `json:"support,omitempty"`
+	// a derived obligation holds if, for one of the alternatives, all its member obligations hold
+	AnyOf     [][]*Obligation `json:"-"`
+	Derived   bool            `json:"derived,omitempty"`
 	ReachS    string `json:"-"`
 }
 
@@ -86,6 +89,16 @@ type loopInfo struct {
 	headerState *State
 	decAtHeader [][]Term
 	cands   []*candInv
+	// inferred termination measures: candidate -> value at the loop head
+	autoVar  []autoVariant
+	isRange  bool
+}
+
+type autoVariant struct {
+	desc   string
+	mk     func(e *Enc, bind map[ssa.Value]Val) (Term, bool)
+	atHead Term
+	obs    []*Obligation
 }
 
 type candInv struct {
@@ -148,6 +161,7 @@ type Enc struct {
 	failed string
 	lockCount int
 	usesLocks bool
+	pureDepth   int
 	inlineDepth int
 	inlineSeq   int
 	inlineUsed  int
@@ -558,7 +572,13 @@ func (e *Enc) typeInv(v Term, t types.Type, now Term) Term {
 		return And(Ge(SliceLen(v), IntLit(0)), Ge(SliceCap(v), SliceLen(v)), Ge(SliceOff(v), IntLit(0)), Le(SliceCap(v), BigLit(maxLenStr)),
 			Lt(Birth(SliceArr(v)), now),
 			Implies(Eq(SliceArr(v), IntLit(0)), Eq(SliceCap(v), IntLit(0))))
-	case *types.Pointer, *types.Map, *types.Chan, *types.Signature, *types.Interface:
+	case *types.Pointer:
+		// objects of different struct types are different objects
+		if _, isStruct := u.Elem().Underlying().(*types.Struct); isStruct {
+			return And(Lt(Birth(v), now), Or(Eq(v, IntLit(0)), Eq(App(SInt, "tyof", v), IntLit(int64(e.p.TypeID(u.Elem()))))))
+		}
+		return Lt(Birth(v), now)
+	case *types.Map, *types.Chan, *types.Signature, *types.Interface:
 		return Lt(Birth(v), now)
 	}
 	return True
@@ -609,7 +629,7 @@ func (e *Enc) obligeNamed(name, kind, detail string, pos token.Pos, goal Term, p
 	// preconditions, invariants); pure proof goals (frames, effects, locks, postconditions) are not assumed,
 	// so that one failing goal does not make the goals after it vacuous.
 	switch kind {
-	case "frame", "effect", "lock", "guard", "post", "typeinv", "typeinv-new", "cand", "monotone", "writers", "at", "callers", "flows", "opaque", "contract-applies", "pure":
+	case "frame", "effect", "lock", "guard", "post", "typeinv", "typeinv-new", "cand", "monotone", "writers", "at", "callers", "flows", "opaque", "contract-applies", "pure", "variant-cand":
 	default:
 		e.assume(goal)
 	}
@@ -622,6 +642,7 @@ func (e *Enc) obligeNamed(name, kind, detail string, pos token.Pos, goal Term, p
 func (e *Enc) analyzeCFG() {
 	fn := e.fn
 	e.loops = map[*ssa.BasicBlock]*loopInfo{}
+	e.loopList = nil
 	e.inLoops = map[*ssa.BasicBlock][]*loopInfo{}
 	// reachable blocks
 	seen := map[*ssa.BasicBlock]bool{}
@@ -807,6 +828,7 @@ func (e *Enc) Encode() {
 		e.encodeBlock(b)
 	}
 	e.encodeExit()
+	e.terminationObligations()
 }
 
 func (e *Enc) collectNames() { e.collectNamesImpl() }
@@ -1023,22 +1045,7 @@ func (e *Enc) encodeExit() {
 	e.curBlock = nil
 	exitBlock := &ssa.BasicBlock{Index: 9999}
 	e.cur = e.mergeStates(exitBlock, edges, states)
-	// results
-	sig := e.fn.Signature
-	var results []Val
-	for i := 0; i < sig.Results().Len(); i++ {
-		rt := sig.Results().At(i).Type()
-		if len(e.rets) == 1 {
-			results = append(results, e.rets[0].vals[i])
-			continue
-		}
-		c := e.declare(fmt.Sprintf("res_%d", i), e.sortOf(rt))
-		for _, r := range e.rets {
-			e.assert(Implies(r.reach, Eq(c, e.coerce(r.vals[i]))))
-		}
-		results = append(results, Val{T: c, Typ: rt})
-	}
-	e.checkPost(results)
+	e.checkPost(e.rets)
 }
 
 // entryHeapOld: every reference stored in the heap at function entry was born before the function started.
